@@ -5,7 +5,7 @@ CONSTANTS
   Postfixes = {}
   Configs <- C01LongConfigs
   Seeds = {1, 2, 3}
-  Textures = {"random", "nonuniform", "layout", "intaligned"}
+  Textures = {"random", "nonuniform", "layout", "layoutc", "intaligned"}
   Flows = {"ss_xz", "pure_xy", "axi_c", "gen3d"}
   Pars <- C01LongPars
   Callbacks = {}
